@@ -19,6 +19,8 @@ DEEP = [
     ('letdeep', 'start = let x = S in ' + '[' * 22 + '`x`' + ']' * 22 + '\nS = ["(", S | "a", ")"]\n'),
     # an instance that contains all the deeper ones is passed on as an argument value (it becomes part of a memo key)
     ('classarg', 'start = B\nclass B {\n  open: "("\n  inner: B | "a"\n  tag: Tag(inner)\n  close: ")"\n}\nTag(v) = "" >> `0`\n'),
+    # layers that nest as conditionals in the generated code (a chain of lets whose bound expressions can fail)
+    ('letchain', 'start = ' + ''.join('let x%d = "(" in ' % i for i in range(130)) + '[`x0`, S]' + '\nS = ["(", S | "a", ")"]\n'),
     ('letset', 'start = let x = (S |> `lambda v_: {str(v_)}`) in ' + '[' * 22 + '`sorted(x)`' + ']' * 22 + '\nS = /[()a]+/\n'),
 ]
 
@@ -28,10 +30,16 @@ def deep_worker(case):
     import sourcer
     import sourcer_verif_rt as rt
     n = case['n']
-    mod = sourcer.Grammar(case['desc'])
+    try:
+        mod = sourcer.Grammar(case['desc'])
+    except BaseException as e:  # noqa
+        return {'id': case['id'], 'desc': case['desc'], 'build': ['ok'], 'obs': ['exc', 'Grammar(): ' + type(e).__name__, str(e)[:200]],
+                'events': []}
     text = '(' * n + 'a' + ')' * n
     if case['kind'] in ('class', 'classarg', 'sequence', 'letdeep', 'letset'):
         text = '(' * n + '(a)' + ')' * n
+    if case['kind'] == 'letchain':
+        text = '(' * 130 + '(' * n + '(a)' + ')' * n
     rt.drain()
     rt.enable(bool(case.get('trace')))
     try:
@@ -48,11 +56,14 @@ def deep_worker(case):
                     shape.append(w)
                     if case['kind'] == 'letset':
                         v = 'a' if v == text else v
+                if case['kind'] == 'letchain':
+                    shape.append(v[0])
+                    v = v[1]
                 while True:
                     if case['kind'] in ('class', 'classarg') and type(v).__name__ == 'B':
                         v = v.inner
                         d += 1
-                    elif case['kind'] in ('sequence', 'letdeep') and isinstance(v, list) and len(v) == 3:
+                    elif case['kind'] in ('sequence', 'letdeep', 'letchain') and isinstance(v, list) and len(v) == 3:
                         v = v[1]
                         d += 1
                     else:
@@ -106,6 +117,8 @@ def run(chk):
         want = ['ok', (c['n'] + 1) if c['kind'] in ('class', 'classarg', 'sequence') else 0, 'a']
         if c['kind'] == 'letdeep':
             want = ['ok', 22, c['n'] + 1, 'a']
+        if c['kind'] == 'letchain':
+            want = ['ok', '(', c['n'] + 1, 'a']
         if c['kind'] == 'letset':
             want = ['ok', 23, 0, 'a']          # 22 layers + the one-element list sorted(x)
         if rec['obs'] != want:
